@@ -204,6 +204,7 @@ pub async fn scenario(line: &str) -> String {
     "lifecycle" => lifecycle(&p).await,
     "churn" => churn(&p).await,
     "fanin" => fanin(&p).await,
+    "peerclose" => peerclose(&p).await,
     "secure" => secure(&p).await,
     "framewise" => framewise(&p).await,
     "pubstall" => pubstall(&p).await,
@@ -2416,6 +2417,60 @@ async fn churn(p: &[&str]) -> String {
   }
 }
 
+
+/// `peerclose <options of the socket that closes> <options of the other socket>`
+/// A PUSH connects to a PULL, both see the handshake, then the PUSH is closed (LINGER 0, nothing queued). The PULL side must
+/// learn that its peer is gone (its monitor reports the disconnect) within 3 s - whatever backend either side runs on.
+async fn peerclose(p: &[&str]) -> String {
+  let mut ca = parse_kv(p[1]);
+  let mut cb = parse_kv(p[2]);
+  ca.insert("type".into(), "PUSH".into());
+  cb.insert("type".into(), "PULL".into());
+  let ctx = Context::new().expect("ctx");
+  let (a, b) = match (make_socket(&ctx, &ca).await, make_socket(&ctx, &cb).await) {
+    (Ok(a), Ok(b)) => (a, b),
+    _ => return "setup-error socket".into(),
+  };
+  let (ma, mb) = match (a.monitor_default().await, b.monitor_default().await) {
+    (Ok(x), Ok(y)) => (x, y),
+    _ => return "setup-error monitor".into(),
+  };
+  if b.bind("tcp://127.0.0.1:0").await.is_err() {
+    return "setup-error bind".into();
+  }
+  let ep = last_endpoint(&b).await;
+  if a.connect(&ep).await.is_err() {
+    return "setup-error connect".into();
+  }
+  let (ra, rb) = tokio::join!(wait_handshake(&ma, Duration::from_secs(3)), wait_handshake(&mb, Duration::from_secs(3)));
+  if ra != "ok" || rb != "ok" {
+    return "setup-error handshake".into();
+  }
+  tokio::time::sleep(Duration::from_millis(50)).await;
+  let closed = tokio::time::timeout(Duration::from_secs(10), a.close()).await.is_ok();
+  let t0 = Instant::now();
+  let mut seen = false;
+  while t0.elapsed() < Duration::from_secs(3) {
+    match tokio::time::timeout(Duration::from_millis(50), mb.recv()).await {
+      Ok(Ok(SocketEvent::Disconnected { .. })) => {
+        seen = true;
+        break;
+      }
+      Ok(Err(_)) => break,
+      _ => {}
+    }
+  }
+  let _ = tokio::time::timeout(Duration::from_secs(5), b.close()).await;
+  let _ = tokio::time::timeout(Duration::from_secs(12), ctx.term()).await;
+  if !closed {
+    return "ORACLE-FAIL key=close-hang close() of the connected socket did not return in 10 s".into();
+  }
+  if seen {
+    "peerclose=seen".into()
+  } else {
+    "ORACLE-FAIL key=peer-not-told the peer of a closed socket saw no disconnect within 3 s (the connection is still open)".into()
+  }
+}
 
 /// `fanin <cfg extras> <n>`
 /// `n` PUSH sockets are connected to one PULL at the same time (all with the cfg extras, e.g. `uring=1`); each sends
